@@ -30,6 +30,46 @@ def validate_abs(model, abs_lines):
     res = out[0] if out else 'EXC no-output'
     return res.startswith('ok'), res, sum(1 for t in toks if t[0] == 'A')
 
+def trace_checker_selftest(exe, base, model, rep):
+    """the extracted trace checker must reject corrupted observations of a real run"""
+    if not model: return
+    rng = vlib.Rng(0x7ACE)
+    sc = k8lib.gen_scenario(rng, 'stall', nthreads=4, nops=24)
+    run = k8lib.run_k8(exe, base, 700000, sc, {'seed': 11, 'mode': 1, 'abs': 1})
+    lines = run.abs
+    ok0 = validate_abs(model, lines)
+    res = {'pristine_accepted': ok0[0], 'observations': len(lines), 'mutations': {}}
+    def idx(pred):
+        for j, l in enumerate(lines):
+            if pred(l): return j
+        return None
+    muts = {}
+    i = idx(lambda l: l.startswith('E ') and ' S w' in l)
+    if i is not None: muts['drop-signal-to-writer'] = lines[:i] + lines[i + 1:]
+    i = idx(lambda l: l.startswith('E ') and ' B bg' in l)
+    if i is not None: muts['drop-background-broadcast'] = lines[:i] + lines[i + 1:]
+    i = idx(lambda l: l.startswith('A ') and ' U ' in l and ' ls=0 ' not in l)
+    if i is not None:
+        m = lines[:]; a = m[i].split(' '); a = [('ls=0' if x.startswith('ls=') else x) for x in a]; m[i] = ' '.join(a); muts['last-sequence-goes-back'] = m
+    i = idx(lambda l: l.startswith('A ') and 'imm=1 bgs=1' in l)
+    if i is not None:
+        m = lines[:]; m[i] = m[i].replace('imm=1 bgs=1', 'imm=1 bgs=0'); muts['imm-without-background-call'] = m
+    i = idx(lambda l: l.startswith('A ') and ' W ' in l and l.endswith('cv=bg'))
+    if i is not None:
+        m = lines[:]; m[i] = m[i].replace(' bgs=1 ', ' bgs=0 ').replace(' imm=1 ', ' imm=0 '); muts['wait-without-pending-waker'] = m
+    i = idx(lambda l: l.startswith('A ') and ' L ' in l)
+    if i is not None and i + 1 < len(lines):
+        m = lines[:]; m[i] = m[i].replace(' sd=0 ', ' sd=1 '); muts['state-changed-while-unlocked'] = m
+    bad = []
+    for name, m in muts.items():
+        r = validate_abs(model, m)
+        res['mutations'][name] = r[1][:80]
+        if r[0]: bad.append(name)
+    rep.cov['trace_checker_selftest'] = res
+    if not ok0[0] or bad:
+        rep.violation({'kind': 'check-internal-error', 'detail': 'trace checker self-test: pristine=%s accepted-mutations=%s' % (ok0[:2], bad)},
+                      suffix='no-failing-input-found')
+
 # ------------------------------------------------------------------ one job
 def one_c08(args):
     exe, base, idx, sc_seed, sched_seed, tier, want_abs, model = args
@@ -159,6 +199,7 @@ def run_c08(rep, tier, seed):
         elif r['problems']:
             rep.violations.append(None)
     oracle_selftest(exe, out, rep)
+    trace_checker_selftest(exe, out, model, rep)
     rep.cov['k8'] = tot
     rep.cov['problem_kinds'] = kinds
     rep.cov['schedules'] = len(results)
@@ -272,6 +313,7 @@ def run_c09(rep, tier, seed):
         elif r['problems']:
             rep.violations.append(None)
     detector_selftest(exe, out, rep)
+    trace_checker_selftest(exe, out, model, rep)
     rep.cov['k8'] = tot
     rep.cov['operations_returned'] = nops
     rep.cov['problem_kinds'] = kinds
